@@ -1,11 +1,29 @@
 package main
 
-// C15: GoLite targets (docs/GOLITE_NOTES.md).
+// C15: GoLite targets (docs/GOLITE_NOTES.md, docs/audit/C15.md section "GoLite").
+//
+// Translated today: checkExpiry (the freshness decision of FileCache.Get).
+// The rows below it are the rest of verifier/crl/crl.go with everything they
+// call; they are kept although the translator refuses them, because the reason
+// printed for each (`golite: unsupported ..`) names the construct that is
+// missing, and they turn `ok` by themselves once it exists:
+//
+//	fileName  crl.go:155 `sha256.Sum256([]byte(url))`: conversion string -> []byte, result type [32]byte;
+//	          crl.go:156 `hash[:]` (slice of an array)
+//	Set       crl.go:142 `json.Marshal(content)`: oracle with a parameter of type `any`;
+//	          crl.go:146 `filepath.Join(a, b)`: variadic oracle; + fileName
+//	Get       crl.go:85 filepath.Join; crl.go:96 `json.Unmarshal(contentBytes, &content)`: `any` parameter
+//	          that is an out-pointer to a local; crl.go:104 `content.DeltaCRL != nil` on a []byte whose
+//	          nil / empty distinction matters (NilIsEmpty would be unsound: `"deltaCRL":""` decodes to an
+//	          empty non-nil slice, which Get hands to ParseRevocationList -> error, while nil -> no delta);
+//	          + fileName. Everything else of Get and Set translates (tried on a scratch copy in which these
+//	          calls were wrapped in monomorphic helper functions).
 func init() {
+	const crl = ".../verifier/crl"
 	Register("C15", []Target{
 		{Pkg: "time", Func: "Now", Oracle: true},
-		{Pkg: ".../verifier/crl", Func: "checkExpiry"},
-		{Pkg: "crypto/x509", Type: "RevocationList", Opaque: true, Views: map[string]string{"NextUpdate": "time.Time", "Raw": "[]byte"}},
+		{Pkg: crl, Func: "checkExpiry"},
+
 		{Pkg: "crypto/x509", Func: "ParseRevocationList", Oracle: true},
 		{Pkg: "crypto/sha256", Func: "Sum256", Oracle: true},
 		{Pkg: "encoding/hex", Func: "EncodeToString", Oracle: true},
@@ -14,9 +32,10 @@ func init() {
 		{Pkg: "os", Func: "ReadFile", Oracle: true},
 		{Pkg: "path/filepath", Func: "Join", Oracle: true},
 		{Pkg: "errors", Func: "Is", Oracle: true},
+		{Pkg: "io/fs", Func: "errNotExist", Oracle: true},
 		{Pkg: ".../internal/file", Func: "WriteFile", Oracle: true},
-		{Pkg: ".../verifier/crl", Func: "(*FileCache).fileName"},
-		{Pkg: ".../verifier/crl", Func: "(*FileCache).Set"},
-		{Pkg: ".../verifier/crl", Func: "(*FileCache).Get"},
+		{Pkg: crl, Func: "(*FileCache).fileName"},
+		{Pkg: crl, Func: "(*FileCache).Set"},
+		{Pkg: crl, Func: "(*FileCache).Get"},
 	})
 }
